@@ -55,6 +55,13 @@ pub fn run_c15(out: &mut Out, rng: &mut Rng, tier: Tier) -> String {
                     w.iter(out, 0, variant, "-");
                     out.count(&format!("variant:{variant}"));
                 }
+                // consumption through iterator adaptors instead of next / next_back
+                for variant in SEQ {
+                    for adaptor in ["n1", "nb1", "ss", "tr", "rs", "last", "count", "fold"] {
+                        w.new_matrix(out, 0, order, nr, nc, 1);
+                        w.iter_adapt(out, 0, variant, adaptor);
+                    }
+                }
                 if w.regs[0].is_some() { w.drop_reg(out, 0); }
                 if nr * nc > 1 { out.nontrivial(); }
             }
@@ -155,7 +162,7 @@ pub fn run_c15(out: &mut Out, rng: &mut Rng, tier: Tier) -> String {
     }
     format!(
         "every shape 0..={bound} x 0..={bound} x both orders x the six sequential iterators (iter_elements, _mut, into_, and their _with_index forms) x six consumption patterns (front, back, alternating both ways, random mix, front-stopped-mid-vector-then-back) \
-         and the six parallel forms; {n} random order/shape-changing histories (transpose, switch with and without rearrangement, reshape, resize) followed by one iterator; four large shapes (2000-10000 elements, not multiples of 1024/4096) for the indexed and parallel forms. \
+         and the six parallel forms; each sequential variant also through iterator adaptors on fresh iterators (nth, nth_back, skip + step_by, take + rev, rev + skip, last, count, fold); {n} random order/shape-changing histories (transpose, switch with and without rearrangement, reshape, resize) followed by one iterator; four large shapes (2000-10000 elements, not multiples of 1024/4096) for the indexed and parallel forms. \
          Elements are tokens with destructors. Oracle: every element exactly once, len() before every call, every reported index is in bounds and get(index) returns the very same element (address equality for borrowing variants), ledger balanced for consuming variants. \
          A case is non-trivial when the matrix has more than one element"
     )
